@@ -24,7 +24,7 @@ def run(seed, prop):
             return seed, prop, {"exit": None, "error": "patch does not apply: " + p.stdout[-300:]}
         out = work + "/out"
         env = dict(os.environ, PYVC_REPO=work, PYVC_OUT_DIR=out)
-        r = subprocess.run([V + "/vf", "check", prop, "--tier", "quick", "--jobs", "4"], stdout=subprocess.PIPE, stderr=subprocess.STDOUT, text=True, env=env, timeout=3600)
+        r = subprocess.run([V + "/vf", "check", prop, "--tier", "quick", "--jobs", os.environ.get("SEED_MATRIX_JOBS", "4")], stdout=subprocess.PIPE, stderr=subprocess.STDOUT, text=True, env=env, timeout=3600)
         viol = re.findall(r"failing obligation: (\S+)", r.stdout)
         lines = [l for l in r.stdout.splitlines() if l.startswith("VIOLATION")]
         return seed, prop, {"exit": r.returncode, "failing_obligations": viol[:6], "with_native_witness": sum(1 for l in lines if not l.endswith("no-failing-input-found")), "violation_lines": len(lines)}
@@ -39,7 +39,7 @@ for s in seeds:
     for e in EXTRA.get(s, []):
         jobs.append((s, e))
 res = {}
-with cf.ThreadPoolExecutor(4) as ex:
+with cf.ThreadPoolExecutor(int(os.environ.get("SEED_MATRIX_WORKERS", "4"))) as ex:
     for seed, prop, r in ex.map(lambda a: run(*a), jobs):
         res.setdefault(seed, {})[prop] = r
         print(seed, prop, r.get("exit"), (r.get("failing_obligations") or [r.get("error")])[:2], flush=True)
